@@ -4,12 +4,23 @@
    also re-checks (by computation) the hypotheses the refinement theorems carry: children strictly
    sorted and pairwise key-disjoint, index keys separating the blocks, internal entries strictly
    icmp-sorted with kinds Del/Val.  Depends on model files only. *)
-From GL Require Import Base.Bytes Codec.IKey Iter.Cursor Iter.Merged Iter.Indexed Iter.DBIter Corr.Cmps Gen.Consts Gen.Inst.
-From Coq Require Import String.
+From GL Require Import Base.Bytes Codec.IKey Codec.Block Codec.Table Codec.TableCheck Codec.TblCrc Codec.Snappy Codec.Bloom
+  Lsm.Lsm Lsm.ReadPath Lsm.IterPath Gen.InstTbl Gen.InstMem Gen.BloomInst.
+From GL Require Export Corr.C01BytesRun.      (* kmem / kfile: the dump format of the byte-level cases *)
+From GL Require Mem.MemDB.
+From GL Require Import Iter.Cursor Iter.Merged Iter.Indexed Iter.DBIter Iter.IterErr Corr.Cmps Gen.Consts Gen.Inst.
+From Coq Require Import String ZArith.
 
 Inductive mv := mF | mL | mS (k : string) | mN | mP.
 (* observations: oN = (false, nil, nil); oS k v = (true, k, v); oX = anything else *)
 Inductive ob := oN | oS (k v : string) | oX (b : bool) (kv : option (string * string)).
+
+(* calls and observations of the error / release walks: error classes 0 none, 1 corruption, 2 other,
+   3 ErrIterReleased *)
+Inductive ecl := eM (m : mv) | eR | eZ (nonnil : bool).
+Inductive eob := EO (ret : bool) (kv : option (string * string)) (valid : bool) (err : N).
+(* a fuse: (calls until the failing one | never, kind 1 corruption / 2 other, failed from birth) *)
+Definition fuse := (option nat * N * bool)%type.
 
 Inductive c02case :=
 | CMerged (cid : N) (children : list (list (string * string))) (ms : list mv) (obs : list ob)
@@ -17,7 +28,23 @@ Inductive c02case :=
 | CNested (cid : N) (nested : list (list (string * list (string * string))))
           (children : list (list (string * string))) (ms : list mv) (obs : list ob)
 | CDBIter (cid : N) (entries : list (string * N * string)) (seq : N) (start limit : option string)
-          (ms : list mv) (obs : list ob).
+          (ms : list mv) (obs : list ob)
+(* the byte-level DB iterator (Lsm/IterPath.v dbi_run) on a dumped state - the real arrays of the transaction's,
+   the live and the frozen memdb, the real bytes of every table file (transaction tables, then the pinned
+   version's levels; the KBytes dump format of property C01) - against the walks observed on iterators
+   created on that state: (sequence number, range, calls, observations) *)
+| CDBBytes (cid ri : N) (verify : bool) (fname : option string) (bpk : Z) (strict : bool)
+           (auxm : option kmem) (auxt : list kfile)
+           (mem frozen : option kmem) (lvls : list (list kfile))
+           (walks : list (N * option (option string * option string) * list mv * list ob))
+(* errors and release (Iter/IterErr.v): the real mergedIterator / indexedIterator / dbIter over children
+   behind fuses; calls incl. Release and SetReleaser; panicked = the last call panicked in Go *)
+| CMergedErr (cid : N) (strict : bool) (children : list (list (string * string) * fuse))
+             (calls : list ecl) (obs : list eob) (panicked : bool)
+| CIndexedErr (cid : N) (strict : bool) (ifuse : fuse) (blocks : list (string * list (string * string) * fuse))
+              (calls : list ecl) (obs : list eob) (panicked : bool)
+| CDBIterErr (cid : N) (strict : bool) (seq : N) (rfuse : fuse) (entries : list (string * N * string))
+             (calls : list ecl) (obs : list eob) (panicked : bool).
 
 Definition dec_mv (m : mv) : move bytes :=
   match m with mF => MFirst | mL => MLast | mS k => MSeek (unhex k) | mN => MNext | mP => MPrev end.
@@ -63,6 +90,43 @@ Fixpoint index_okb (f : bytes -> bytes -> comparison) (il : list (bytes * list (
       forallb (fun e => forallb (fun x => match f ik (fst x) with Lt => true | _ => false end) (snd e)) r &&
       index_okb f r
   end.
+
+Definition dec_ecl (c : ecl) : ecall bytes :=
+  match c with eM m => CMove (dec_mv m) | eR => CRelease | eZ b => CSetReleaser b end.
+
+Definition kind_of (k : N) : ierr := if k =? 1 then ECorrupt else EOther.
+Definition class_of (e : option ierr) : N :=
+  match e with None => 0 | Some ECorrupt => 1 | Some EOther => 2 | Some EReleased => 3 end.
+
+Definition mk_fc {C} (c : C) (f : fuse) : fchild C :=
+  match f with (fu, k, born) => mkFC c fu (kind_of k) born end.
+
+Definition eob_eq (o : eout bytes bytes) (x : eob) : bool :=
+  match x with
+  | EO ret kv valid err =>
+      Bool.eqb (eo_ret o) ret && Bool.eqb (eo_valid o) valid && (class_of (eo_err o) =? err) &&
+      match eo_kv o, kv with
+      | None, None => true
+      | Some (k, v), Some (k', v') => beq k (unhex k') && beq v (unhex v')
+      | _, _ => false
+      end
+  end.
+
+Fixpoint eobs_eq (os : list (eout bytes bytes)) (xs : list eob) : bool :=
+  match os, xs with
+  | [], [] => true
+  | o :: os', x :: xs' => eob_eq o x && eobs_eq os' xs'
+  | _, _ => false
+  end.
+
+(* a walk that ended in a panic: the model panics at that call too and agrees on the calls before it *)
+Definition judge (run : list (ecall bytes) -> option (list (eout bytes bytes))) (calls : list ecl) (obs : list eob)
+           (panicked : bool) : bool :=
+  let cs := map dec_ecl calls in
+  if panicked then
+    match run cs with Some _ => false | None => true end &&
+    match run (removelast cs) with Some outs => eobs_eq outs obs | None => false end
+  else match run cs with Some outs => eobs_eq outs obs | None => false end.
 
 Definition run_case (x : c02case) : bool :=
   match x with
@@ -124,6 +188,50 @@ Definition run_case (x : c02case) : bool :=
           end
       | _, _ => false
       end
+  | CDBBytes cid ri verify fname bpk strict auxm auxt mem frozen lvls walks =>
+      let c := cmp_of_id cid in
+      let fn := option_map unhex fname in
+      let ufc := bloom_ufc bp bpk in
+      let st := mkBS (option_map to_mem mem) (option_map to_mem frozen) (map (map to_file) lvls) in
+      let am := option_map to_mem auxm in
+      let aT := map to_file auxt in
+      let okf := tfile_okb c kp tblp tbl_crc snappy_decode fn ufc verify ri in
+      let okm := fun d : option MemDB.db => match d with Some m => mem_keys_okb kp mp m | None => true end in
+      (* the boolean hypotheses of C02_db_iterator_correct_bytes(_gen) *)
+      forallb (forallb okf) (bs_levels st) && forallb okf aT && okm (bs_mem st) && okm (bs_frozen st) && okm am &&
+      match bs_mem st with Some _ => true | None => false end &&
+      match auxm, auxt with
+      | None, [] => wf_fullb c kp (abs c mp tblp tbl_crc snappy_decode fn ufc verify ri st)
+      | _, _ => true
+      end &&
+      forallb (fun w => match w with (s, sl, ms, obs) =>
+                 let slice := option_map (fun ab => (option_map unhex (fst ab), option_map unhex (snd ab))) sl in
+                 match dbi_run c kp mp tblp tbl_crc snappy_decode fn ufc verify strict (N.to_nat 4000) am aT st s slice
+                               (map dec_mv ms) with
+                 | Some outs => obs_eq outs obs
+                 | None => false
+                 end end) walks
+  | CMergedErr cid strict ch calls obs panicked =>
+      let f := cmp (cmp_of_id cid) in
+      let fits := map (fun cf => mk_fc (map dec_kv (fst cf), SOI) (snd cf)) ch in
+      judge (me_run bytes bytes _ (f_step (cur_step f)) (f_obs cur_obs) f_err (pop_scan bytes f) strict (me_init fits))
+            calls obs panicked
+  | CIndexedErr cid strict ifuse bl calls obs panicked =>
+      let f := cmp (cmp_of_id cid) in
+      (* D = a block with its fuse *)
+      let il := map (fun b => (unhex (fst (fst b)), (map dec_kv (snd (fst b)), snd b))) bl in
+      judge (xe_run bytes bytes (list (bytes * bytes) * fuse) _ _
+                    (f_step (cur_step f)) (f_obs cur_obs) f_err
+                    (fun d => mk_fc (fst d, SOI) (snd d))
+                    (f_step (cur_step f)) (f_obs cur_obs) f_err strict
+                    (S (S (List.length il))) (xe_init (mk_fc (il, SOI) ifuse)))
+            calls obs panicked
+  | CDBIterErr cid strict s rfuse es calls obs panicked =>
+      let c := cmp_of_id cid in
+      let l : list entry := map (fun e => ({| uk := unhex (fst (fst e)); num := snd (fst e) |}, unhex (snd e))) es in
+      judge (de_run c kp _ (f_step (cur_step (icmp c))) (f_obs cur_obs) f_err s strict (S (S (List.length l)))
+                    (de_init (mk_fc (l, SOI) rfuse)))
+            calls obs panicked
   end.
 
 Fixpoint mism_from {A} (f : A -> bool) (i : N) (l : list A) : list N :=
